@@ -175,29 +175,46 @@ func sharedOf[T any](key string, mk func() T) T {
 // Decorators. F and FF are interfaces: a program may wrap a library-made morphism in a struct of its own that embeds
 // it and overrides Apply (to count, trace, time). The wrapped value still is a Lift, Try or Pure morphism - the stage
 // has to treat it by what it embeds. One unshared morphism in three is decorated.
+// The decorator counts: a stage that reaches the wrapped function behind the decorator's back (by unwrapping
+// or converting the embedded value) runs the function without the caller's Apply, which the count shows.
 type decoF[A, B any] struct {
 	pipe.F[A, B]
-	calls *int
+	calls *atomic.Int64
 }
 
-func (d decoF[A, B]) Apply(a A) (B, error) { *d.calls++; return d.F.Apply(a) }
+func (d decoF[A, B]) Apply(a A) (B, error) { d.calls.Add(1); return d.F.Apply(a) }
 
 type decoFF[A, B any] struct {
 	pipe.FF[A, B]
-	calls *int
+	calls *atomic.Int64
 }
 
 func (d decoFF[A, B]) Apply(ctx context.Context, a A, out chan<- B) error {
-	*d.calls++
+	d.calls.Add(1)
 	return d.FF.Apply(ctx, a, out)
 }
 
 type decoForkF[A, B any] struct {
 	fork.F[A, B]
-	calls *int
+	calls *atomic.Int64
 }
 
-func (d decoForkF[A, B]) Apply(a A) (B, error) { return d.F.Apply(a) }
+func (d decoForkF[A, B]) Apply(a A) (B, error) { d.calls.Add(1); return d.F.Apply(a) }
+
+// checkDeco (quiescent points): every call of the function came through the decorator
+func (w *world) checkDeco() {
+	if !w.decoUsed.Load() {
+		return
+	}
+	w.emu.Lock()
+	n := int64(len(w.calls))
+	w.emu.Unlock()
+	if d := w.decoCalls.Load(); d != n {
+		w.bad("calls", "the morphism handed to the stage is the caller's own wrapper around a library morphism (it embeds it and overrides Apply): the function ran %d times but the wrapper's Apply only %d times - the stage reached the wrapped value behind the wrapper", n, d)
+	}
+}
+
+func (w *world) deco() *atomic.Int64 { w.decoUsed.Store(true); return &w.decoCalls }
 
 func (w *world) decorated() bool {
 	c := w.c
@@ -208,7 +225,7 @@ func pipeFW[A, B any](w *world, name string, m func(*world, A) (B, error)) pipe.
 	if !w.shared() {
 		f := pipeF(w.c.Mode, func(a A) (B, error) { return m(w, a) })
 		if w.decorated() {
-			return decoF[A, B]{f, new(int)}
+			return decoF[A, B]{f, w.deco()}
 		}
 		return f
 	}
@@ -221,7 +238,7 @@ func forkFW[A, B any](w *world, name string, m func(*world, A) (B, error)) fork.
 	if !w.shared() {
 		f := forkF(w.c.Mode, func(a A) (B, error) { return m(w, a) })
 		if w.decorated() {
-			return decoForkF[A, B]{f, new(int)}
+			return decoForkF[A, B]{f, w.deco()}
 		}
 		return f
 	}
@@ -244,7 +261,7 @@ func pipeFFW(w *world) pipe.FF[int, int] {
 	}
 	if !w.shared() {
 		if w.decorated() {
-			return decoFF[int, int]{mk(), new(int)}
+			return decoFF[int, int]{mk(), w.deco()}
 		}
 		return mk()
 	}
